@@ -23,7 +23,7 @@ func (C08) ID() string    { return "C08" }
 func (C08) Level() string { return "exploration" }
 func (C08) Runs(t core.Tier) int {
 	if t == core.Thorough {
-		return 2_000_000
+		return 600_000
 	}
 	return 30_000
 }
